@@ -53,7 +53,7 @@ pub fn replay_file(path: &std::path::Path) -> i32 {
         "c07-trace" => verdict("C07", path, c07::replay(case)),
         "c15-trace" => verdict("C15", path, c15::replay(case)),
         "c19-trace" => verdict("C19", path, c19::replay(case)),
-        "c09-schedule" => verdict("C09", path, c09::replay(case)),
+        "c09-schedule" => verdict(v["property"].as_str().unwrap_or("C09"), path, c09::replay(case)),
         "c10-schedule" => verdict("C10", path, c10::replay(case)),
         "c08-sequence" => verdict("C08", path, c08::replay(case)),
         "c11-scenario" => verdict("C11", path, c11::replay(case)),
